@@ -28,17 +28,21 @@ class Env:
         self.rho_e = np.asarray(rho_e, complex)
 
     # ---- process tensor side -------------------------------------------
-    def mpo_tensor(self):
+    def mpo_tensor(self, kraus=None):
         d, e = self.d, self.e
-        m = sum(np.kron(k, k.conj()) for k in self.kraus)
+        m = sum(np.kron(k, k.conj()) for k in (kraus or self.kraus))
         m = m.reshape(d, e, d, e, d, e, d, e)   # out(s,b,s',b') in(s,b,s',b')
         t = np.transpose(m, (5, 7, 1, 3, 4, 6, 0, 2))
         return t.reshape(e * e, e * e, d * d, d * d)
 
+    def kraus_at(self, step):
+        """Kraus set acting in time step `step` (step_kraus overrides)."""
+        return getattr(self, "step_kraus", {}).get(step, self.kraus)
+
     def tensors(self, nsteps):
-        t = self.mpo_tensor()
-        first = np.einsum('a,abcd->bcd', self.rho_e.reshape(-1), t)[None]
-        return [first] + [t] * (nsteps - 1)
+        ts = [self.mpo_tensor(self.kraus_at(k)) for k in range(nsteps)]
+        first = np.einsum('a,abcd->bcd', self.rho_e.reshape(-1), ts[0])[None]
+        return [first] + ts[1:]
 
     def caps(self, nsteps):
         tr = np.eye(self.e).reshape(-1).astype(complex)
@@ -87,15 +91,18 @@ def rotated_dephasing_env(rng, d, e, strength=0.7):
 
 def rank3_tensors(env, nsteps):
     """For a 'dephasing' env the MPO tensor is diagonal in (S_in,S_out)."""
-    t = env.mpo_tensor()
     d2 = env.d ** 2
-    diag = np.stack([t[:, :, s, s] for s in range(d2)], axis=-1)
-    off = t.copy()
-    for s in range(d2):
-        off[:, :, s, s] = 0
-    assert np.abs(off).max() < 1e-12
-    first = np.einsum('a,abc->bc', env.rho_e.reshape(-1), diag)[None]
-    return [first] + [diag] * (nsteps - 1)
+    out = []
+    for k in range(nsteps):
+        t = env.mpo_tensor(env.kraus_at(k))
+        diag = np.stack([t[:, :, s, s] for s in range(d2)], axis=-1)
+        off = t.copy()
+        for s in range(d2):
+            off[:, :, s, s] = 0
+        assert np.abs(off).max() < 1e-12
+        out.append(diag)
+    out[0] = np.einsum('a,abc->bc', env.rho_e.reshape(-1), out[0])[None]
+    return out
 
 
 def build_process_tensor(env, nsteps, dt=None, rank3=False, transform=None,
@@ -108,10 +115,15 @@ def build_process_tensor(env, nsteps, dt=None, rank3=False, transform=None,
     tens = rank3_tensors(env, nsteps) if rank3 else env.tensors(nsteps)
     kw = {}
     if transform is not None:
-        tin, tout = transform
-        kw = dict(transform_in=tin, transform_out=tout)
-        tin_inv = np.linalg.inv(tin)
-        tout_inv = np.linalg.inv(tout)
+        tin, tout = transform          # either may be None (one-sided)
+        d2 = d * d
+        kw = {}
+        if tin is not None:
+            kw["transform_in"] = tin
+        if tout is not None:
+            kw["transform_out"] = tout
+        tin_inv = np.linalg.inv(tin) if tin is not None else np.eye(d2)
+        tout_inv = np.linalg.inv(tout) if tout is not None else np.eye(d2)
         # T[a,b,i,o] = sum_jp tin[i,j] T'[a,b,j,p] tout[p,o]
         if not rank3:
             tens = [np.einsum('ij,abjp,po->abio', tin_inv, t, tout_inv)
@@ -177,11 +189,11 @@ class Joint:
         t = np.einsum(expr, k, self._tensor())
         self.r = t.reshape(self.n, self.n)
 
-    def apply_env(self, j):
+    def apply_env(self, j, step=None):
         d, e = self.d, self.envs[j].e
         r0 = self.r
         new = np.zeros_like(r0)
-        for k in self.envs[j].kraus:
+        for k in self.envs[j].kraus_at(step):
             self.r = r0
             k4 = k.reshape(d, e, d, e)
             self._apply_op(k4, j, False)
@@ -226,7 +238,7 @@ def dense_dynamics(d, envs, rho0, nsteps, halfprops, pre=None, post=None,
         p1, p2 = halfprops(k)
         jt.apply_system_super(p1)
         for j in order:
-            jt.apply_env(j)
+            jt.apply_env(j, k)
         jt.apply_system_super(p2)
     return np.array(states)
 
